@@ -140,6 +140,114 @@ def crash_site(san):
     return "unknown"
 
 
+def gen_path_cases(ck, scratch):
+    """the same malformed (and some well-formed) inputs, read BY FILE NAME: dataframe::read(path),
+    read_csv(path), read_xrff(path), src_problem(path)"""
+    import os
+    rng = ck.rng
+    n = 6 if ck.thorough else 1
+    texts = []
+    good = ('<dataset><header><attributes><attribute name="a" type="numeric"/><attribute name="b" class="yes" '
+            'type="numeric"/></attributes></header><body><instances><instance><value>1</value><value>2</value></instance>'
+            '<instance><value>3</value><value>4</value></instance></instances></body></dataset>')
+    fixed = [("xrff", "read", ""), ("xrff", "read", "<"), ("xml", "read", "<dataset>"), ("xrff", "read_xrff", "\x00"),
+             ("xrff", "read", good), ("xml", "read_xrff", good), ("csv", "read", "1,2\n3,4\n"), ("csv", "read_csv", ""),
+             ("csv", "prob", "1,2,,4\n5,6,,8\n"), ("csv", "read", "1,2\n3,4,5\n")]
+    for ext, api, txt in fixed:
+        texts.append((ext, api, txt.encode("latin1")))
+    for _ in range(260 * n):
+        l = malformed_xrff(rng).split(" ")
+        texts.append((rng.choice(["xrff", "xml"]), rng.choice(["read", "read", "read_xrff"]), cc.unhx(l[2])))
+    for _ in range(140 * n):
+        l = malformed_csv(rng).split(" ")
+        texts.append(("csv", rng.choice(["read", "read_csv", "prob"]), cc.unhx(l[2])))
+    cases = []
+    for k, (ext, api, data) in enumerate(texts):
+        fn = os.path.join(scratch, "f%05d.%s" % (k, ext))
+        with open(fn, "wb") as f:
+            f.write(data)
+        cases.append({"mode": "path", "api": api, "ext": ext, "file": fn, "data": data,
+                      "line": "path fixed %s %s" % (api, fn)})
+    return cases
+
+
+def path_model_line(c, ho):
+    """the model has no file system: it reads the same bytes through the stream entry points"""
+    if c["ext"] == "csv":
+        if c["api"] == "prob":
+            return "prob fixed %s 0" % cc.hx(c["data"])
+        return cc.csv_line(c["data"], 0, -1, False, 0)
+    p = cc.parse_out(ho)
+    if p.get("dom"):
+        return "xrff fixed %s %s N" % p["dom"]
+    return "xrff fixed ERR ERR N"
+
+
+def run_path_batch(ck, harness, model):
+    import os
+    import shutil
+    scratch = os.path.join(vv.BUILD, "private-csv", "scratch-%d" % os.getpid())
+    shutil.rmtree(scratch, ignore_errors=True)
+    os.makedirs(scratch)
+    try:
+        if ck.replay_path:
+            rp = json.load(open(ck.replay_path))
+            if rp.get("mode") != "path":
+                return
+            fn = os.path.join(scratch, "replay." + rp["ext"])
+            data = bytes.fromhex(rp["file_content_hex"])
+            with open(fn, "wb") as f:
+                f.write(data)
+            # a leak is a property of the process: repeat the read so that LeakSanitizer also sees it
+            cases = [{"mode": "path", "api": rp["api"], "ext": rp["ext"], "file": fn, "data": data,
+                      "line": "path fixed %s %s" % (rp["api"], fn)}] * 3
+        else:
+            cases = gen_path_cases(ck, scratch)
+        hl = [c["line"] for c in cases]
+        hout, crashes = cc.pc.run_harness_resilient(harness, hl)
+        ml = [path_model_line(c, o) for c, o in zip(cases, hout)]
+        rc, mout, merr = vv.run_lines(model, "\n".join(ml) + "\n")
+        if rc != 0 or len(mout) != len(ml):
+            raise vv.BuildError("model driver failed: rc=%s %s" % (rc, merr[:500]))
+        hist = {}
+        leaking = None
+        for k, c in enumerate(cases):
+            ck.count()
+            ho, mo = hout[k], mout[k]
+            atexit = ho is not None and ho.startswith("CRASH-AT-EXIT ")
+            if atexit:
+                ho = ho[len("CRASH-AT-EXIT "):]
+            got = cc.parse_out(ho)
+            mode = "xrff" if c["ext"] != "csv" else ("prob" if c["api"] == "prob" else "csv")
+            outcome = got["kind"] + (":" + got["exn"] if got["kind"] == "EXN" else "")
+            hist["%s.%s %s" % (c["api"], c["ext"], outcome)] = hist.get("%s.%s %s" % (c["api"], c["ext"], outcome), 0) + 1
+            ck.nontriv("path " + c["api"] + " " + c["data"].hex())
+            replay = {"mode": "path", "api": c["api"], "ext": c["ext"], "line": c["line"], "impl": ho, "model": mo,
+                      "file_content": c["data"].decode("latin1")[:600], "file_content_hex": c["data"].hex()}
+            if got.get("fdleak"):
+                if leaking is None:
+                    leaking = replay
+                ck.add_violation("path:leak", "reading a file by name leaves %d descriptor(s) open (%s of a .%s file: %s)"
+                                 % (got["fdleak"], c["api"], c["ext"], outcome), replay)
+            if got["kind"] == "CRASH":
+                ck.add_violation("path:sanitizer:%s" % crash_site(crashes.get(k, "")),
+                                 "undefined behaviour while reading a file by name", dict(replay, sanitizer=crashes.get(k, "")[-2500:]))
+                continue
+            if atexit:
+                san = crashes.get(k, "")
+                ck.add_violation("path:leak", "LeakSanitizer reports leaked memory at exit after reading files by name",
+                                 dict(leaking or replay, sanitizer=san[-2500:]))
+            v = judge(mode, got)
+            if v:
+                ck.add_violation("path:" + v[0], v[1], replay)
+            # by-name and stream reading of the same bytes must agree (modulo the descriptor report)
+            if cc.canon(ho).replace(" FDLEAK=%s" % got.get("fdleak"), "") != cc.canon(mo):
+                ck.add_diff({"mode": "path", "line": c["line"], "api": c["api"]}, mo[:600], (ho or "")[:600])
+        ck.coverage["path_outcomes"] = hist
+    finally:
+        shutil.rmtree(scratch, ignore_errors=True)
+
+
 STD_EXN = {"invalid_argument", "out_of_range", "insufficient_data", "data_format", "bad_variant_access", "bad_alloc"}
 
 
@@ -179,7 +287,7 @@ def run(ck):
     harness, model = cc.build()
     if ck.replay_path:
         rp = json.load(open(ck.replay_path))
-        cases = [{"mode": rp["mode"], "line": rp["line"]}]
+        cases = [{"mode": rp["mode"], "line": rp["line"]}] if rp.get("mode") != "path" else []
     else:
         cases = gen_cases(ck)
     hl = [c["line"] for c in cases]
@@ -188,7 +296,7 @@ def run(ck):
     xi = [i for i, c in enumerate(cases) if c["mode"] == "xrff"]
     for i, l in zip(xi, cc.xrff_model_lines([hl[i] for i in xi], [hout[i] for i in xi])):
         ml[i] = l
-    rc, mout, merr = vv.run_lines(model, "\n".join(ml) + "\n")
+    rc, mout, merr = vv.run_lines(model, "\n".join(ml) + "\n") if ml else (0, [], "")
     if rc != 0 or len(mout) != len(ml):
         raise vv.BuildError("model driver failed: rc=%s %s" % (rc, merr[:500]))
     hist = {}
@@ -238,6 +346,7 @@ def run(ck):
             ck.add_diff({"mode": c["mode"], "line": c["line"][:400]}, mo[:600], (ho or "")[:600])
     ck.coverage["outcomes"] = hist
     ck.coverage["xrff_zero_returns"] = zero_returns
+    run_path_batch(ck, harness, model)
     import os
     if os.environ.get("VV_DEBUG"):
         for d in ck.diffs[:int(os.environ["VV_DEBUG"])]:
@@ -249,5 +358,5 @@ def run(ck):
              "shorter than the output index, raw unbalanced quotes, empty files/lines, binary bytes, huge/denormal numbers, text in "
              "numeric columns, every delimiter/header/output-index/trim/filter setting incl. a record-shrinking filter), malformed "
              "XRFF (ragged instances, several/no class attributes, unknown types, truncated / corrupted / structurally damaged XML) "
-             "and the same CSV through src_problem + the generated variables; every case is non-trivial; distinct = distinct input "
+             "and the same CSV through src_problem + the generated variables; then the same kinds of files written to a scratch directory and read BY FILE NAME (dataframe::read / read_csv(path) / read_xrff(path) / src_problem(path)) with the number of open descriptors compared before/after every call and LeakSanitizer at exit; every case is non-trivial; distinct = distinct input "
              "text and parameters")
